@@ -267,6 +267,18 @@ func (e *Ev) evBuiltin(x *ast.CallExpr, name string) Val {
 					return VRunes{Seq: "bs_empty", N: "0"}
 				}
 			}
+			if en, ok := refLikeElem(u.Elem()); ok && !e.contract {
+				// make([]*T, 0, cap): an empty slice of references (the capacity is not modelled)
+				if len(x.Args) >= 2 {
+					if n := e.intOf(e.ev(x.Args[1]), x.Args[1]); n != "0" {
+						e.unsupp(x, "make([]*T, n) with n != 0")
+					}
+				}
+				if len(x.Args) >= 3 {
+					e.ev(x.Args[2])
+				}
+				return VRefs{Arr: e.fx.declare(sortArr, "mk_refs"), N: "0", Elem: en}
+			}
 		case *types.Map:
 			return e.makeMap(u, x)
 		}
@@ -321,6 +333,26 @@ func (e *Ev) evBuiltin(x *ast.CallExpr, name string) Val {
 				}
 				return cur
 			}
+		case VRefs:
+			if x.Ellipsis.IsValid() {
+				e.unsupp(x, "append with ... to a slice of references")
+			}
+			cur := b
+			for _, a := range x.Args[1:] {
+				var rt Term
+				switch r := e.ev(a).(type) {
+				case VRef:
+					rt = r.T
+				case VNil:
+					rt = "0"
+				default:
+					e.unsupp(a, "append of %T to a slice of references", r)
+				}
+				n := e.fx.name(sortInt, "rfn", sAdd(cur.N, "1"))
+				e.fx.assume(e.st.pc, sLt(n, maxLen)) // standing assumption: every slice is shorter than 2^56
+				cur = VRefs{Arr: e.fx.name(sortArr, "rfa", fmt.Sprintf("(store %s %s %s)", cur.Arr, cur.N, rt)), N: n, Elem: cur.Elem}
+			}
+			return cur
 		case VRunes:
 			cur := b
 			for _, a := range x.Args[1:] {
